@@ -41,7 +41,7 @@ ASSUMPTIONS = [
     "declared defaults are used on trust (they are not validated)",
     "sets are Python sets (no two equal members)",
 ]
-HDR = HEADER.replace("Corr.Check.", "Corr.Check Model.Derive.")
+HDR = HEADER.replace("Corr.Check.", "Corr.Check Model.Derive Proofs.DeriveR.")
 S, I = G.S, G.I
 NCLS = len(G.STD_CLASSES)
 
@@ -846,31 +846,34 @@ def run(tier: str, rng: random.Random, proof_ok: bool) -> dict:
             classes = coq(c.ct.coq())
             env = f"(mk_env {classes} [] oracle_tbl re_tbl email_tbl case_tbl)"
             sig = "true" if c.sig else "false"
-            body.append(f"  chk_eq {3 * i}%nat (derive {sig} {coq(c.a)}) (Ok {coq(c.b.vterm)} : pres validator).\n")
-            body.append(f"  chk_eq {3 * i + 1}%nat (has_type {coq(c.a)} {coq(c.x_seen)}) {coq(c.typed)}.\n")
-            body.append(f"  chk {3 * i + 2}%nat {env} Sync 80%nat {coq(c.b.vterm)} {coq(c.x_seen)} {coq(c.obs)}.\n")
-        path = os.path.join(GEN, f"cases_C07_{k // per}.v")
+            body.append(f"  chk_eq {4 * i}%nat (derive {sig} {coq(c.a)}) (Ok {coq(c.b.vterm)} : pres validator).\n")
+            body.append(f"  chk_eq {4 * i + 1}%nat (has_type {coq(c.a)} {coq(c.x_seen)}) {coq(c.typed)}.\n")
+            body.append(f"  chk {4 * i + 2}%nat {env} Sync 80%nat {coq(c.b.vterm)} {coq(c.x_seen)} {coq(c.obs)}.\n")
+            # the soundness theorem's premise holds of every generated annotation without user validators
+            body.append(f"  chk_eq {4 * i + 3}%nat (okann {env} {coq(c.a)}) {coq(not uses_annotated(c.a))}.\n")
+        path = os.path.join(GEN, f"cases_C07_p{os.getpid()}_{k // per}.v")
         open(path, "w").write("".join([HDR, orc.coq(), "Goal True.\n"] + body + ["exact I. Qed.\n"]))
         files.append((path, chunk))
     with ThreadPoolExecutor(max_workers=16) as ex:
         results = list(ex.map(lambda fc: run_coq_file(fc[0]), files))
     mism = shown = 0
     what = {0: "the derived validator differs from the model's derivation", 1: "the model's type reading (has_type) differs from the type oracle",
-            2: "the derived validator's outcome differs from the model's run"}
+            2: "the derived validator's outcome differs from the model's run",
+            3: "the premise of the soundness theorem (okann: record nodes well-formed, no user validator) does not hold of a generated annotation"}
     for (path, chunk), (status, mm, raw) in zip(files, results):
         if status != "ok":
             violations.append({"kind": "correspondence", "signature": None,
                                "what": f"correspondence file {os.path.basename(path)} failed to evaluate", "log": raw[-1500:]})
         for idx, model in mm:
             mism += 1
-            c = chunk[idx // 3]
+            c = chunk[idx // 4]
             if id(c) in flagged or shown >= 3:
                 continue
             shown += 1
             violations.append({"kind": "correspondence", "signature": None,
-                               "what": f"correspondence family 'C07-derive' no longer checks: {what[idx % 3]}",
+                               "what": f"correspondence family 'C07-derive' no longer checks: {what[idx % 4]}",
                                "case": c.to_json(), "model_outcome": model[:1200],
-                               "observed_outcome": [coq(c.b.vterm), str(c.typed), coq(c.obs)][idx % 3][:1200]})
+                               "observed_outcome": [coq(c.b.vterm), str(c.typed), coq(c.obs), "premise expected"][idx % 4][:1200]})
         if status == "ok" and not mm:
             for ext in (".v", ".vo", ".vok", ".vos", ".glob"):
                 try:
@@ -894,7 +897,7 @@ def run(tier: str, rng: random.Random, proof_ok: bool) -> dict:
            "rule": "distinct (annotation incl. generated classes, value, resolution mode) triples",
            "samples": [{"annotation": repr(c.b.T)[:200], "value": repr(c.px)[:120], "is_value": c.typed, "outcome": c.obs[0]}
                        for c in good[:: max(1, len(good) // 4)][:4]],
-           "traces_validated_against_impl": 3 * len(good), "mismatches": mism, "harness_errors": herr, "harness_error_first": herr_first[:200],
+           "traces_validated_against_impl": 4 * len(good), "mismatches": mism, "harness_errors": herr, "harness_error_first": herr_first[:200],
            "verdicts": dist, "root_annotation_kinds": kinds, "signature_mode": sum(1 for c in good if c.sig),
            "streams": {t: sum(1 for c in good if c.tag == t) for t in ("conform", "corrupt", "arbitrary", "lookalike")},
            "corr_wall_s": round(time.time() - t0, 1)}
